@@ -3,8 +3,6 @@
 
 package depend
 
-import "fmt"
-
 
 type UserEnteredDependencies struct {
 	Atoms []*DependAtom
@@ -19,7 +17,9 @@ func NewUserEnteredDependencies() *UserEnteredDependencies {
 
 func (ued *UserEnteredDependencies) Add(atomString string) error {
 	if _, hit := ued.amap[atomString]; hit {
-		return fmt.Errorf("duplicate entry for atom %s", atomString)
+		// An atom entered twice (a profile reached through two parents, an atom
+		// repeated on the command line) is harmless: keep the first entry
+		return nil
 	}
 	da, err := NewDependencyAtom(atomString)
 	if err != nil {
